@@ -398,6 +398,23 @@ class Byzantine:
             else:
                 first = r.choice([R.P_NOTIFY, R.P_SA, R.P_VENDOR])
             exp = ('trailing', 'dangling next-payload: last payload announces a successor but the data ends: ' + str([PT.get(p['type'], p['type']) for p in pls]))
+        if 0.38 <= damage < 0.46 and not crit_unknown and any(p['type'] == R.P_SA and p['proposals'] for p in pls):
+            # octets behind the substructure that is marked as the last one (Proposal in the SA payload, Transform in a Proposal), every
+            # enclosing length covering them: the chain of substructures does not end where its container ends
+            i = next(i for i, p in enumerate(pls) if p['type'] == R.P_SA and p['proposals'])
+            body = bytearray(R.enc_body(pls[i]))
+            extra = bytes(r.getrandbits(8) for _ in range(r.choice([1, 3, 4, 8])))
+            where = r.choice(['proposal', 'transform'])
+            if where == 'transform':
+                o = 0
+                while body[o] != 0:
+                    o += struct.unpack('>H', body[o + 2:o + 4])[0]
+                body[o + 2:o + 4] = struct.pack('>H', struct.unpack('>H', body[o + 2:o + 4])[0] + len(extra))
+            body += extra
+            pls = list(pls)
+            pls[i] = {'type': R.P_SA, 'raw': bytes(body)}
+            chain = R.enc_chain(pls)
+            exp = ('trailing', f'octets behind the last {"Proposal" if where == "proposal" else "Transform"} of an SA payload')
         surplus = b''
         if 0.3 <= damage < 0.38 and not crit_unknown:
             # a complete message followed by octets the header's Length field does not announce (the field itself left alone)
